@@ -28,7 +28,7 @@ class RoundTrip(Obligation):
     def setup(self,eng,tier):
         self.eng=eng; self.b=B(eng)
     TYPE={'rule':'ArtifactRule','step':'Step','inspection':'Inspection','link':'LinkMetadata','layout':'LayoutMetadata','metablock':'Metablock','pubkey':'PublicKey',
-          'signature':'Signature','keyid':'KeyId','vpath':'VirtualTargetPath','command':'Command','byproducts':'ByProducts','keytype':'KeyType','hashvalue':'HashValue','wrapper':'MetadataWrapper'}
+          'signature':'Signature','keyid':'KeyId','vpath':'VirtualTargetPath','command':'Command','byproducts':'ByProducts','keytype':'KeyType','hashvalue':'HashValue','wrapper':'MetadataWrapper','predicate':'PredicateWrapper','statement':'StatementWrapper'}
     def entry(self,eng):
         def go(run,args):
             x=args[0]
@@ -104,6 +104,31 @@ class RoundTrip(Obligation):
                  b.wrap_layout(b.layout([b.step('s0',1,[],[],[],[])],[],[],b.datetime(4102444800),'r'))
             if w=='wrapper': return meta
             return b.metablock(meta,[b.signature(pool_keyid(0),value=[1,2])][:run.pick(2,'nsig')])
+        if w in ('predicate','statement'):
+            def uri(s): return Agg('TypeURI',[mk_string(s) if isinstance(s,str) else s])
+            def ts(secs,off=0): return Agg('TimeStamp',[Agg('DateTimeFixed',[Int(64,True,secs),Int(32,False,0),Int(32,True,off)])])
+            def linkv02(): return b.struct('LinkV02',name=self.S(run,'pname','p'),materials=b.btreemap([(b.vpath('m'),b.target_description([z3.BitVec('pm',8)]))][:run.pick(2,'npm')]),
+                                           env=[none(),some(b.btreemap([(mk_string('K'),mk_string('V'))]))][run.pick(2,'penv')],command=b.command(['c']),byproducts=b.byproducts(Int(32,True,0),'o','e'))
+            def meta():
+                k=run.pick(4,'meta')
+                if k==0: return none()
+                t1=[none(),some(ts(1700000000)),some(ts(1700000000,3600))][k-1]
+                return some(b.struct('ProvenanceMetadata',build_invocation_id=[none(),some(self.S(run,'inv','id'))][run.pick(2,'inv')],build_started_on=t1,build_finished_on=none(),
+                                     completeness=[none(),some(b.struct('Completeness',arguments=some(Bool(z3.Bool('c_arg'))),environment=none(),materials=none()))][run.pick(2,'compl')],reproducible=none()))
+            def mats(): return [none(),some(VecO([b.struct('Material',uri=some(uri('git+x')),digest=some(b.hashmap([(mk_string('sha1'),mk_string('ab'))])))]))][run.pick(2,'mats')]
+            def slsa1(): return b.struct('SLSAProvenanceV01',builder=b.struct('Builder',id=uri(self.S(run,'bid','b'))),
+                                         recipe=[none(),some(b.struct('Recipe',typ=uri('t'),defined_in_material=some(Int(64,False,z3.BitVec('dim',64))),entry_point=none(),arguments=none(),environment=none()))][run.pick(2,'recipe')],metadata=meta(),materials=mats())
+            def slsa2(): return b.struct('SLSAProvenanceV02',builder=b.struct('Builder',id=uri('b')),build_type=uri(self.S(run,'bt','t')),
+                                         invocation=[none(),some(b.struct('Invocation',config_source=some(b.struct('ConfigSource',uri=some(uri('u')),digest=none(),entry_point=some(mk_string('e')))),parameters=none(),environment=none()))][run.pick(2,'inv2')],
+                                         build_config=none(),metadata=meta(),materials=mats())
+            pk=run.pick(3,'pred'); pred=[linkv02,slsa1,slsa2][pk]()
+            if w=='predicate': return pred
+            if run.pick(2,'stmt')==0:
+                return b.struct('StateNaive',typ=mk_string('link'),name=self.S(run,'sname','n'),materials=b.btreemap([]),products=b.btreemap([(b.vpath('p'),b.target_description([z3.BitVec('sp',8)]))]),
+                                env=none(),command=b.command([]),byproducts=b.byproducts(Int(32,True,0),'o','e'))
+            ver=['LinkV0_2','SLSAProvenanceV0_1','SLSAProvenanceV0_2'][pk]
+            return b.struct('StateV01',typ=mk_string('https://in-toto.io/Statement/v0.1'),subject=b.btreemap([(b.vpath('p'),b.target_description([z3.BitVec('sp',8)]))]),
+                            predicate_type=b.variant('PredicateVer',ver),predicate=b.variant('PredicateWrapper',ver,[pred]))
         raise Unsupported(w)
     def mk_args(self,run):
         x=self.mk(run)
@@ -136,7 +161,9 @@ class RoundTrip(Obligation):
                 r,m=run.check_sat(z3.BoolVal(True))
                 rec['viol']={'kind':'own_output_rejected','known_key':None,'scenario':scn(m),'predicted':'/'.join(kinds),'what':'the serialised form of a value is rejected by the parser on every channel'}; return rec
             for o in oks:
-                same=val_eq(g['x'],o[1])
+                got=o[1]
+                if isinstance(got,Agg) and got.ty!=g['x'].ty and got.variant is not None and len(got.f)==1: got=got.f[0]      # Wrapper::Variant(inner)
+                same=val_eq(g['x'],got)
                 r,m=run.check_sat(z3.Not(same.z()))
                 if r==z3.sat:
                     rec['viol']={'kind':'roundtrip_changes_value','known_key':None,'scenario':scn(m),'predicted':'/'.join(kinds),'what':'serialise -> parse does not give back an equal value'}; return rec
